@@ -573,6 +573,24 @@ def strip_nested_dimensions(v):
 G.update({'Array': _ArrayCls, 'FindVariables': FindVariables, 'FindInlineCalls': FindInlineCalls, 'FindLiterals': FindLiterals,
           'strip_nested_dimensions': strip_nested_dimensions})
 
+# a loop range expression and its parts: reads(bounds) = reads(lower) | reads(upper) | reads(step)
+_RPART = {k: z3.Function('range_' + k, V, V) for k in ('lower', 'upper', 'step')}
+
+
+def _range_part(kind):
+    def prop(self):
+        c = ctx()
+        parts = [f(self.t) for f in _RPART.values()]
+        for q in parts:
+            c.assume(T.recog['is_C_ExprM'](q))
+        c.assume(SEf(self.t) == un(*[SEf(q) for q in parts]))
+        return SV(T, _RPART[kind](self.t), cls='ExprM')
+    return prop
+
+
+for _k, _alias in (('lower', 'lower'), ('upper', 'upper'), ('step', 'step'), ('lower', 'start'), ('upper', 'stop')):
+    T.classes['ExprM'].props[_alias] = _range_part(_k)
+
 VISIT_NODE = inline(F, 'DataflowAnalysisAttacher.visit_Node', G)
 SYMS_FROM_LHS = inline(F, 'DataflowAnalysisAttacher._symbols_from_lhs_expr', G)
 
@@ -965,7 +983,8 @@ class _ArgTok:
         self.type = _TypeTok(intent)
 
 
-INTENTS = (None, 'in', 'out', 'inout', 'IN', 'Out', 'InOut')
+# 'in out' is standard Fortran for INOUT and is what the frontend stores for `intent(in out)`
+INTENTS = (None, 'in', 'out', 'inout', 'IN', 'Out', 'InOut', 'in out', 'IN OUT')
 
 
 def spec_call_known(intents):
@@ -981,7 +1000,7 @@ def spec_call_known(intents):
     def sets(env, att):
         Wn, Rn = EMPTY, EMPTY
         for it, v in zip(intents, env['vals']):
-            low = None if it is None else it.lower()
+            low = None if it is None else it.lower().replace(' ', '')
             if low in (None, 'out', 'inout'):
                 Wn = z3.SetUnion(Wn, Wsym(v.t))
             if low in (None, 'in', 'inout'):
